@@ -214,7 +214,7 @@ pub fn split_case(i: u64) -> Option<ChunkCase> {
     o.declare_total = base % 2 == 0;
     let chunks = vec![a, b - a, 100_000];
     Some(ChunkCase {
-        recipe: Recipe { bps, rate: 44100, frames, seed: base as u64 + 99, chans, seg: 0 },
+        recipe: Recipe { bps, rate: 44100, frames, seed: base as u64 + 99, chans, seg: 0, ms_mix: 0 },
         opts: o,
         extra: if base % 2 == 1 && channels > 1 { vec![1] } else { vec![] },
         partial_bytes: if base == 2 { 1 } else { 0 },
